@@ -69,6 +69,37 @@ func runHistory(r *vf.Run, calls []hcall, listing bool, capacity int, tag string
 	return e, sh, buf, true
 }
 
+// runHistoryTree: the same history, but stretches of it reach the emitter through clones (clones of
+// clones, sibling candidates of which one is kept, clone targets in the parent's own buffer), as a
+// code generator assembling fragments does. The shadow is fed the plain sequence.
+func runHistoryTree(r *vf.Run, g *vf.Rng, calls []hcall, listing bool, capacity int, tag string, cells map[string]int64) (*asm.Emitter, *shadow, []byte, bool) {
+	buf := make([]byte, capacity)
+	for i := range buf {
+		buf[i] = 0xCC
+	}
+	e := asm.NewEmitter(buf, listing)
+	sh := newShadow(listing)
+	for _, c := range calls {
+		if sh.legal(c) {
+			sh.apply(c)
+		}
+	}
+	t := &cloneTree{g: g, cells: cells}
+	if pan := vf.Try(func() { t.feed(e, buf, calls, 0) }); pan != nil {
+		r.Fail(tag+"-clone-tree-panic", fmt.Sprintf("emitting through %s panicked: %v", t.describe(), pan), map[string]interface{}{"calls": histStrings(calls), "tree": t.log})
+		return e, sh, buf, false
+	}
+	if e.PC() != sh.addr || e.Len() != len(sh.code) {
+		r.Fail(tag+"-clone-tree-pc-len", fmt.Sprintf("emitting through %s: PC=$%06x Len=%d, expected PC=$%06x Len=%d", t.describe(), e.PC(), e.Len(), sh.addr, len(sh.code)), map[string]interface{}{"calls": histStrings(calls), "tree": t.log})
+		return e, sh, buf, false
+	}
+	if string(e.Bytes()) != string(sh.code) {
+		r.Fail(tag+"-clone-tree-bytes", fmt.Sprintf("emitting through %s: emitted bytes differ from the shadow at offset %d", t.describe(), firstDiff(e.Bytes(), sh.code)), map[string]interface{}{"calls": histStrings(calls), "tree": t.log})
+		return e, sh, buf, false
+	}
+	return e, sh, buf, true
+}
+
 func C06(r *vf.Run) {
 	r.Rule = "generated emitter call histories (1-400 calls: instructions, data, labels, all 8 label-taking methods, forward/backward/multiple/missing references, duplicate-label attempts) with padding chosen so that branch displacements -129,-128,-127,-2,0,+1,+126,+127,+128 occur, plus programs spanning almost a whole bank with references around the +-32 KiB and +-64 KiB marks; six base-address classes; target buffers exactly full, with 1-3 spare bytes, and roomy; a shadow model predicts the Finalize outcome and every byte, also for a second Finalize and for Finalize after further emission; a cell is (reference kinds, outcome, boundary distances hit, base class)"
 	r.Assume = []string{"programs stay within one bank and SetBase is called at most once before the first emission (as quantified)"}
@@ -101,7 +132,16 @@ func C06(r *vf.Run) {
 				}
 				capacity = len(sz.code) + []int{0, 0, 0, 1, 2, 3}[g.Intn(6)]
 			}
-			e, sh, buf, ok := runHistory(r, calls, listing, capacity, "c06")
+			var e *asm.Emitter
+			var sh *shadow
+			var buf []byte
+			var ok bool
+			if k%10 != 9 && g.Intn(5) == 0 {
+				e, sh, buf, ok = runHistoryTree(r, g, calls, listing, capacity, "c06", cells)
+				cells["emitted-through-clones"]++
+			} else {
+				e, sh, buf, ok = runHistory(r, calls, listing, capacity, "c06")
+			}
 			r.Eval(1)
 			if !ok {
 				continue
